@@ -66,3 +66,19 @@ chk("C11", "model_checking",
     "per refusal; every record also goes through slog's JSON handler and must come out as one parsable line carrying the JSON image of the data (all strings of <=2 (thorough 3) JSON-hostile symbols).",
     _BWNOTE + " The -log file of the real binary is the same handler writing to a file; the file itself is not exercised here.",
     "DESIGN.md 4, 5 C11")
+
+chk("C17", "exploration",
+    "bounded exhaustive enumeration of real directory trees x filter tables against a reference written from the statement",
+    "Every directory with <=3 (thorough 4) entries over 12 names (spaces, glob characters, dot-files, editor lock/backup names, several extensions) x 6 entry kinds "
+    "(regular, empty, no final newline, sub-directory, symlink to a regular file, dangling symlink on dot/non-matching names) built for real so os.DirFS is exercised, "
+    "converted twice with 4 filter tables (default, extended, reduced, overlapping with a user filter); single-file and multi-source forms; an fstest.MapFS variant. "
+    "Failing trees are reduced to the minimal ones before reporting.",
+    "Per-file conversion is a black box here (C16 owns FromPerl). Symlinks to regular files may be included or omitted; an empty conversion contributes nothing.",
+    "DESIGN.md 5 C17")
+chk("C18", "exploration",
+    "bounded exhaustive enumeration of TABDOC strings, generated function executed by dash and bash with an argument-framing echo stub",
+    "Every string of <=3 (thorough 4) symbols over 23 shell-significant symbols (quotes, backslash, $, backquote, parentheses, operators, globs, control bytes, invalid UTF-8) "
+    "as name, description and both, classic quote-breakers carrying canary commands, and every sequence of <=4 doc lines over a menu with duplicates/empties; oracle: one "
+    "call of echo per expected row with exactly one argument whose bytes parse to the expected (name, description), sorted, nothing else on stdout/stderr, status 0, no canary.",
+    "dash and bash of this image stand for 'a POSIX shell'.",
+    "DESIGN.md 5 C18")
